@@ -26,7 +26,7 @@ QUICK_BUDGET_S = 90
 CHUNK = 25
 CHUNK_TIMEOUT_S = 600
 RULE = (
-    'seed -> key type (int, string, bytes, pair int string), universe of 1..6 keys, initial on-chain contents of two big_maps (every split of keys between '
+    'seed -> key type (int, string, bytes, pair int string, 4-comb pair int int int string), universe of 1..6 keys, initial on-chain contents of two big_maps (every split of keys between '
     'chain and local updates arises), and 1..5 transactions of up to 12 cells over {GET, MEM, UPDATE Some/None, GET_AND_UPDATE Some/None, DUP+update on '
     'the copy (dropped or kept)} with storage = on-chain id, literal or empty; ends in COMMIT (diff applied to the node) or abandonment; failing cells '
     '(failing tail or injected instruction fault) and transient RPC faults below the retry cap on reads. Non-trivial = at least one observation or '
@@ -43,7 +43,7 @@ ASSUMPTIONS = [
     'big_maps passed in the parameter (the unfinished `copy` action) are outside the statement and not generated.',
     'A read that exhausts the retry budget is outside the statement (pytezos maps any RpcError to "absent"); bursts stay below the cap.',
     'The node assigns real ids (>= 1000) on alloc, as a real node does; interpreter-local placeholder ids are mapped by position.',
-    'Independent key hashing covers the key types generated here (int, string, bytes, pair int string).',
+    'Independent key hashing covers the key types generated here (int, string, bytes, pair int string, pair int int int string), using the legacy (nested-pair) packing for combs, as the protocol does for big_map keys.',
 ]
 EXPECTED_PROBES = ['read_chain_only_key', 'update_chain_only_key', 'remove_chain_only_key', 'reinsert_after_remove', 'read_after_local_remove_of_chain_key',
                    'commit_with_removals', 'abandoned_session', 'failed_cell_midway', 'transient_on_read', 'second_txn_reads_first_txn_writes', 'dup_divergent']
@@ -85,6 +85,13 @@ def pack_key(ktype, k):
         i, s = k
         raw = s.encode()
         body = b'\x07\x07' + b'\x00' + _zarith_signed(i) + b'\x01' + len(raw).to_bytes(4, 'big') + raw
+    elif ktype == 'comb4':
+        # big_map keys are hashed over the *legacy* packing: a right comb is nested binary Pairs
+        *ints, s = k
+        raw = s.encode()
+        body = b'\x01' + len(raw).to_bytes(4, 'big') + raw
+        for i in reversed(ints):
+            body = b'\x07\x07' + b'\x00' + _zarith_signed(i) + body
     else:
         raise core.HarnessError(ktype)
     return b'\x05' + body
@@ -101,7 +108,21 @@ def key_michelson(ktype, k):
         return f'"{k}"'
     if ktype == 'bytes':
         return '0x' + k
+    if ktype == 'comb4':
+        return '(Pair ' + ' '.join(str(i) for i in k[:-1]) + f' "{k[-1]}")'
     return f'(Pair {k[0]} "{k[1]}")'
+
+
+def flatten_pairs(m):
+    """Normalise a Micheline value: right-nested binary Pairs and flat n-ary Pairs become one flat list of leaves."""
+    if isinstance(m, dict) and m.get('prim') == 'Pair':
+        args = list(m.get('args', []))
+        while args and isinstance(args[-1], dict) and args[-1].get('prim') == 'Pair':
+            args = args[:-1] + list(args[-1]['args'])
+        return {'prim': 'Pair', 'args': [flatten_pairs(a) for a in args]}
+    if isinstance(m, list):
+        return {'prim': 'Pair', 'args': [flatten_pairs(a) for a in m]} if len(m) > 1 else m
+    return m
 
 
 def key_micheline(ktype, k):
@@ -111,21 +132,24 @@ def key_micheline(ktype, k):
         return {'string': k}
     if ktype == 'bytes':
         return {'bytes': k}
+    if ktype == 'comb4':
+        return {'prim': 'Pair', 'args': [{'int': str(i)} for i in k[:-1]] + [{'string': k[-1]}]}
     return {'prim': 'Pair', 'args': [{'int': str(k[0])}, {'string': k[1]}]}
 
 
-KTYPE_M = {'int': 'int', 'string': 'string', 'bytes': 'bytes', 'pair': '(pair int string)'}
+KTYPE_M = {'int': 'int', 'string': 'string', 'bytes': 'bytes', 'pair': '(pair int string)', 'comb4': '(pair int int int string)'}
 UNIVERSES = {
     'int': [0, 1, -1, 63, 64, -65, 10**12],
     'string': ['', 'a', 'b', 'ab', 'key with space', 'zzzzzzzzzzzzzzzzzzzzzzzzzzzzzzzz'],
     'bytes': ['', '00', '01', 'ff', 'deadbeef', '0000'],
     'pair': [[0, ''], [0, 'a'], [1, 'a'], [-1, 'a'], [1, 'b'], [64, 'zz']],
+    'comb4': [[0, 0, 0, ''], [1, 2, 3, 'x'], [1, 1, 1, 'a'], [-1, 64, 0, 'a'], [1, 2, 3, 'y'], [0, 0, 1, '']],
 }
 
 
 def gen(seed, tier):
     rng = rng_for(seed, 15)
-    ktype = rng.choice(['int', 'int', 'string', 'bytes', 'pair'])
+    ktype = rng.choice(['int', 'int', 'string', 'bytes', 'pair', 'comb4'])
     nkeys = rng.choice([1, 2, 3, 4, 6])
     keys = rng.sample(UNIVERSES[ktype], min(nkeys, len(UNIVERSES[ktype])))
     chain0 = {}
@@ -169,7 +193,7 @@ def gen(seed, tier):
 
 def cell_for(step, ktype, keys):
     K = KTYPE_M[ktype]
-    k = key_michelson(ktype, tuple(keys[step['k']]) if ktype == 'pair' else keys[step['k']])
+    k = key_michelson(ktype, tuple(keys[step['k']]) if ktype in ('pair', 'comb4') else keys[step['k']])
     v = f'"{step["v"]}"'
 
     def upd(kind):
@@ -399,7 +423,7 @@ def execute(scn, want_log=False):
                 # every diff entry's key_hash must be the hash of its own key
                 bad_hash = None
                 for u in updates:
-                    kj = next((j for j, k in enumerate(keys) if key_micheline(ktype, k) == u.get('key')), None)
+                    kj = next((j for j, k in enumerate(keys) if flatten_pairs(key_micheline(ktype, k)) == flatten_pairs(u.get('key'))), None)
                     if kj is None or H[kj] != u['key_hash']:
                         bad_hash = {'key': u.get('key'), 'key_hash': u['key_hash'], 'expected': H[kj] if kj is not None else None}
                         break
@@ -508,6 +532,8 @@ def _sort_key(ktype, k):
         return bytes.fromhex(k)
     if ktype == 'pair':
         return (k[0], k[1].encode())
+    if ktype == 'comb4':
+        return tuple(k[:-1]) + (k[-1].encode(),)
     if ktype == 'string':
         return k.encode()
     return k
